@@ -6,6 +6,7 @@ package main
 import (
 	"fmt"
 	"go/constant"
+	"go/token"
 	"go/types"
 	"strings"
 
@@ -463,6 +464,23 @@ func constFormats(v ssa.Value, depth int) ([]string, bool) {
 				return nil, false
 			}
 			out = append(out, fs...)
+		}
+		return uniq(out), len(out) > 0
+	case *ssa.BinOp:
+		// a constant choice joined with a constant: sep + "%v" with sep one of "", ","
+		if x.Op != token.ADD {
+			return nil, false
+		}
+		ls, ok1 := constFormats(x.X, depth+1)
+		rs, ok2 := constFormats(x.Y, depth+1)
+		if !ok1 || !ok2 || len(ls)*len(rs) > 16 {
+			return nil, false
+		}
+		var out []string
+		for _, l := range ls {
+			for _, r := range rs {
+				out = append(out, l+r)
+			}
 		}
 		return uniq(out), len(out) > 0
 	case *ssa.Call:
